@@ -119,7 +119,8 @@ func zzCleanRuntimeNode(n int) {
 		}
 		kc.exists[p.id] = p.exist
 	}
-	cl := &zzRuntimeClient{rt: rt, getErr: n == 1 && zz.Bool("get.fails")}
+	cl := &zzRuntimeClient{rt: rt, getErr: zz.Bool("get.fails")}
+	zz.Assume(!cl.getErr || n == 1 || sh == 0) // with two records the read failure is explored in one shard only
 	svc.k8s = &zzRuntimeK8s{zzK8s: kc, cl: cl}
 	// engine-side summary of CreateOrPatch (its diffing goes through reflection): mutate, then write.
 	// Natively the real CreateOrPatch runs and ends in the same fake Patch calls.
